@@ -263,6 +263,34 @@ fn enum_among<X: Case>(vals: &[f64], via: u8) -> IoResult<EnumRound> {
     other!(Rgb, Hsl, Hsv, Hwb, Hsluv, Lab, Lch, Luv, Xyz, Yxy, Lms, Jmh, Jab, Luma)
 }
 
+/// The document offered to every color type of the twenty serializable families in turn (with and without alpha, `f32`),
+/// the way an untagged enum would in whatever order its author listed them: for each type that accepts it, the
+/// type's name and the accepted value written out again.
+pub fn cross_read(text: &str) -> Vec<(&'static str, String)> {
+    let mut out = Vec::new();
+    macro_rules! offer {
+        ($($name:literal: $ty:ty),+ $(,)?) => {$(
+            if let Ok(c) = serde_json::from_str::<$ty>(text) {
+                if let Ok(t) = serde_json::to_string(&c) {
+                    out.push(($name, t));
+                }
+            }
+            if let Ok(c) = serde_json::from_str::<Alpha<$ty, f32>>(text) {
+                if let Ok(t) = serde_json::to_string(&c) {
+                    out.push((concat!($name, "+alpha"), t));
+                }
+            }
+        )+};
+    }
+    offer!(
+        "Rgb": RgbC<f32>, "Luma": LumaC<f32>, "Xyz": XyzC<f32>, "Yxy": YxyC<f32>, "Lab": LabC<f32>, "Luv": LuvC<f32>,
+        "Oklab": OklabC<f32>, "Lms": LmsC<f32>, "Cam16UcsJab": Cam16UcsJabC<f32>, "Hsl": HslC<f32>, "Hsv": HsvC<f32>,
+        "Hwb": HwbC<f32>, "Hsluv": HsluvC<f32>, "Lch": LchC<f32>, "Lchuv": LchuvC<f32>, "Oklch": OklchC<f32>,
+        "Okhsl": OkhslC<f32>, "Okhsv": OkhsvC<f32>, "Okhwb": OkhwbC<f32>, "Cam16UcsJmh": Cam16UcsJmhC<f32>,
+    );
+    out
+}
+
 fn enum_round<X: Case>(vals: &[f64], style: u8, via: u8) -> IoResult<EnumRound> {
     if style == 3 {
         return enum_among::<X>(vals, via);
